@@ -51,6 +51,10 @@ pub struct World {
     /// a flaky ephemeral has been executed: behaviours are no longer a function of
     /// declared inputs, the semantic oracles do not apply any more
     pub tainted: bool,
+    /// caches, rebuilt by `refresh` whenever the graph changes
+    pub idmap: BTreeMap<String, usize>,
+    pub cons: Vec<Vec<usize>>,
+    pub owner: BTreeMap<String, String>,
 }
 
 fn mix(mut h: u64, v: u64) -> u64 {
@@ -116,7 +120,7 @@ impl World {
                 deps,
             });
         }
-        World {
+        let mut w = World {
             cfg: sc.cfg,
             defs: sc.slots.clone(),
             st,
@@ -126,7 +130,31 @@ impl World {
             ledger: BTreeMap::new(),
             evalno: 0,
             tainted: false,
+            idmap: BTreeMap::new(),
+            cons: vec![],
+            owner: BTreeMap::new(),
+        };
+        w.refresh();
+        w
+    }
+
+    /// rebuild the caches (id -> slot, consumers, output name -> present job id)
+    pub fn refresh(&mut self) {
+        self.idmap = self.active().into_iter().map(|s| (self.id(s), s)).collect();
+        let mut cons = vec![vec![]; self.n()];
+        for d in self.active() {
+            for (u, _) in self.st[d].deps.iter() {
+                if self.st[*u].active {
+                    cons[*u].push(d);
+                }
+            }
         }
+        self.cons = cons;
+        self.owner = self
+            .idmap
+            .keys()
+            .flat_map(|id| id.split(":::").map(move |p| (p.to_string(), id.clone())))
+            .collect();
     }
 
     pub fn n(&self) -> usize {
@@ -148,7 +176,7 @@ impl World {
     }
 
     pub fn id_map(&self) -> BTreeMap<String, usize> {
-        self.active().into_iter().map(|s| (self.id(s), s)).collect()
+        self.idmap.clone()
     }
 
     /// current direct upstreams of `s`: (upstream slot, consumed parts mask)
@@ -173,7 +201,7 @@ impl World {
     }
 
     pub fn consumers_of(&self, s: usize) -> Vec<usize> {
-        (s + 1..self.n()).filter(|d| self.has_dep(*d, s)).collect()
+        self.cons[s].clone()
     }
 
     /// (upstream slot, output name, ignored)
@@ -273,7 +301,7 @@ impl World {
                 if d == "!!!" {
                     return l != c;
                 }
-                let ds = self.active().into_iter().find(|s| self.id(*s) == d);
+                let ds = self.idmap.get(d).cloned();
                 match ds {
                     None => l != c,
                     Some(ds) => {
@@ -321,19 +349,12 @@ impl World {
 
     /// ids (of jobs known to history / ledger) that are absent from the current graph
     /// while one of their output names is produced by a present job of a different id
-    pub fn superseded(&self, id: &str, ids: &BTreeMap<String, usize>) -> bool {
-        if ids.contains_key(id) {
+    pub fn superseded(&self, id: &str, _ids: &BTreeMap<String, usize>) -> bool {
+        if self.idmap.contains_key(id) {
             return false;
         }
-        let owner = self.part_owner(ids);
         id.split(":::")
-            .any(|p| owner.get(p).map(|o| o != id).unwrap_or(false))
-    }
-
-    pub fn part_owner(&self, ids: &BTreeMap<String, usize>) -> BTreeMap<String, String> {
-        ids.keys()
-            .flat_map(|id| id.split(":::").map(move |p| (p.to_string(), id.clone())))
-            .collect()
+            .any(|p| self.owner.get(p).map(|o| o != id).unwrap_or(false))
     }
 
     pub fn apply_edit(&mut self, e: &Edit) {
@@ -375,12 +396,16 @@ impl World {
                 }
             }
         }
+        match e {
+            Edit::ToggleJob(_) | Edit::ToggleDep { .. } | Edit::TogglePart(..) => self.refresh(),
+            _ => {}
+        }
     }
 
     /// forget the ledger of ids superseded by the current graph (C18: their records
     /// can never vouch again)
     pub fn forget_superseded(&mut self) {
-        let ids = self.id_map();
+        let ids = BTreeMap::new();
         let gone: Vec<String> = self
             .ledger
             .keys()
